@@ -29,6 +29,8 @@ pub struct Owner {
     panic_in_as_ref: bool,
     /// what every call after the first answers (a safe AsRef may answer differently per call)
     alt: Option<Vec<u8>>,
+    /// the owner's destructor panics (after it has counted itself as dropped)
+    panic_in_drop: bool,
 }
 impl AsRef<[u8]> for Owner {
     fn as_ref(&self) -> &[u8] {
@@ -45,6 +47,9 @@ impl AsRef<[u8]> for Owner {
 impl Drop for Owner {
     fn drop(&mut self) {
         owners()[self.id].drops += 1;
+        if self.panic_in_drop && !std::thread::panicking() {
+            panic!("owner drop panics");
+        }
     }
 }
 
@@ -170,7 +175,12 @@ pub const R_BOWNER_VEC: usize = 21;
 pub const R_BKILO: usize = 22;
 /// BytesMut::with_capacity(32768) + put n: above the 16 KiB original-capacity class
 pub const R_M32K: usize = 23;
-pub const N_ROOTS: usize = 24;
+/// from_owner with an owner whose destructor panics: the panic surfaces in whichever call releases the last view; the
+/// block that held the owner must still be released
+pub const R_BOWNER_DROP_PANIC: usize = 24;
+/// BytesMut in the shared form from the start, full (len == capacity), sole handle: from(&[u8]) + split_off(len) dropped
+pub const R_MSHARED_FULL: usize = 25;
+pub const N_ROOTS: usize = 26;
 pub fn root_name(r: usize) -> &'static str {
     [
         "Bytes::new", "Bytes::from_static", "Bytes::from(Vec len==cap)", "Bytes::from(Vec spare)", "Bytes::from(Box<[u8]>)", "Bytes::from_owner",
@@ -178,6 +188,7 @@ pub fn root_name(r: usize) -> &'static str {
         "BytesMut::from_iter", "Bytes::from_owner(as_ref panics)", "BytesMut shared+unique+offset", "BytesMut::with_capacity(128)+put", "Bytes::from(Vec cap 128)",
         "Bytes frozen from shared+unique+offset BytesMut", "BytesMut::with_capacity(1024)+put", "BytesMut shared+unique+offset, grown after promotion",
         "Bytes::from_owner(as_ref answers differently per call)", "Bytes::from_owner(Vec<u8>)", "Bytes::from(Vec len n, cap n+1)", "BytesMut::with_capacity(32768)+put",
+        "Bytes::from_owner(drop panics)", "BytesMut shared+unique+full",
     ][r]
 }
 
@@ -428,6 +439,8 @@ impl World {
             },
             _ => false,
         };
+        let drops_before: u32 = owners().iter().map(|o| o.drops).sum();
+        let mut owner_drop_panic = false;
         // `expect_panic`: does the documented contract say this call panics?
         let mut expect_panic = false;
         let mut panicked = false;
@@ -451,10 +464,10 @@ impl World {
                             H::B(Bytes::from(v))
                         }
                         R_BBOX => H::B(Bytes::from(d.clone().into_boxed_slice())),
-                        R_BOWNER | R_BOWNER_PANIC => {
+                        R_BOWNER | R_BOWNER_PANIC | R_BOWNER_DROP_PANIC => {
                             let id = owners().iter().position(|o| !o.created).unwrap_or(3);
                             owners()[id] = OwnerStat { created: true, as_ref_calls: 0, drops: 0, fam };
-                            let o = Owner { data: d.clone(), id, panic_in_as_ref: kind == R_BOWNER_PANIC, alt: None };
+                            let o = Owner { data: d.clone(), id, panic_in_as_ref: kind == R_BOWNER_PANIC, alt: None, panic_in_drop: kind == R_BOWNER_DROP_PANIC };
                             H::B(Bytes::from_owner(o))
                         }
                         R_BOWNER_FLAKY => {
@@ -462,7 +475,7 @@ impl World {
                             owners()[id] = OwnerStat { created: true, as_ref_calls: 0, drops: 0, fam };
                             let mut alt = Vec::with_capacity(12);
                             alt.extend_from_slice(&[0xF0, 0xF1, 0xF2, 0xF3, 0xF4, 0xF5, 0xF6, 0xF7, 0xF8, 0xF9, 0xFA, 0xFB]);
-                            let o = Owner { data: d.clone(), id, panic_in_as_ref: false, alt: Some(alt) };
+                            let o = Owner { data: d.clone(), id, panic_in_as_ref: false, alt: Some(alt), panic_in_drop: false };
                             H::B(Bytes::from_owner(o))
                         }
                         R_BOWNER_VEC => H::B(Bytes::from_owner(d.clone())),
@@ -470,6 +483,11 @@ impl World {
                             let mut v = Vec::with_capacity(n + 1);
                             v.extend_from_slice(&d);
                             H::B(Bytes::from(v))
+                        }
+                        R_MSHARED_FULL => {
+                            let mut m = BytesMut::from(&d[..]);
+                            drop(m.split_off(n));
+                            H::M(m)
                         }
                         R_M32K => {
                             let mut m = BytesMut::with_capacity(32768);
@@ -542,11 +560,11 @@ impl World {
                             if kind == R_BSTATIC && n > 0 && h.ptr() != STATIC4.as_ptr() as usize {
                                 self.vio("C07", "from_static-address", format!("from_static view starts at {:#x}, static data at {:#x}", h.ptr(), STATIC4.as_ptr() as usize));
                             }
-                            if (kind == R_BSTATIC || kind == R_BOWNER || kind == R_BOWNER_FLAKY || kind == R_BOWNER_VEC) && Self::byte_buffer_allocated_excluding_owner(kind, n) {
+                            if (kind == R_BSTATIC || kind == R_BOWNER || kind == R_BOWNER_DROP_PANIC || kind == R_BOWNER_FLAKY || kind == R_BOWNER_VEC) && Self::byte_buffer_allocated_excluding_owner(kind, n) {
                                 self.vio("C07", "root-copy", format!("{} allocated a byte buffer", root_name(kind)));
                             }
                         }
-                        if kind == R_BOWNER || kind == R_BOWNER_FLAKY || kind == R_BOWNER_VEC {
+                        if kind == R_BOWNER || kind == R_BOWNER_DROP_PANIC || kind == R_BOWNER_FLAKY || kind == R_BOWNER_VEC {
                             self.owner_ranges.push((h.ptr(), h.len(), fam));
                         }
                         self.put(h, model, fam);
@@ -876,11 +894,12 @@ impl World {
                 let n = op.a;
                 let l = pre_len(self, s);
                 expect_panic = n > ISIZE_MAX;
-                let r = self.call(|w| w.m(s).resize(n, 0xEE));
+                let fill: u8 = if op.b == 1 { 0 } else { 0xEE };
+                let r = self.call(|w| w.m(s).resize(n, fill));
                 match r {
                     Ok(()) => {
                         if !expect_panic {
-                            self.model(s).resize(n, 0xEE);
+                            self.model(s).resize(n, fill);
                         }
                         let _ = l;
                     }
@@ -1100,6 +1119,7 @@ impl World {
                 // the BufMut protocol used in contract: chunk_mut() (grows a full buffer), write a bytes, advance_mut(a)
                 let d = self.fresh(op.a.max(1));
                 let n = op.a;
+                let requery = op.b == 1;
                 let r = self.call(|w| {
                     let m = w.m(s);
                     let c = m.chunk_mut();
@@ -1107,6 +1127,11 @@ impl World {
                     let k = n.min(cl);
                     for i in 0..k {
                         c.write_byte(i, d[i]);
+                    }
+                    if requery {
+                        // asking again before committing (e.g. for the length) must not disturb what was written
+                        let again = m.chunk_mut().len();
+                        assert!(again >= k, "second chunk_mut() is shorter than what was written");
                     }
                     unsafe { m.advance_mut(k) };
                     (cl, k)
@@ -1123,9 +1148,21 @@ impl World {
             }
             K::MWriteStr => {
                 // fmt::Write::write_str (ASCII payload so that it is a str)
+                // b = 0: write_str of a ASCII bytes; b = 1/2/3: write_char of one 2/3/4-byte character, a times; b = 4: write!("{}{}")
                 let n = op.a;
-                let txt: String = (0..n).map(|i| (b'a' + (i % 26) as u8) as char).collect();
-                let r = self.call(|w| core::fmt::Write::write_str(w.m(s), &txt).is_ok());
+                let mode = op.b;
+                let txt: String = match mode {
+                    0 => (0..n).map(|i| (b'a' + (i % 26) as u8) as char).collect(),
+                    1 => (0..n).map(|_| '\u{e9}').collect(),
+                    2 => (0..n).map(|_| '\u{20ac}').collect(),
+                    3 => (0..n).map(|_| '\u{1d11e}').collect(),
+                    _ => "x\u{e9}\u{20ac}".to_string(),
+                };
+                let r = self.call(|w| match mode {
+                    0 => core::fmt::Write::write_str(w.m(s), &txt).is_ok(),
+                    1 | 2 | 3 => txt.chars().all(|c| core::fmt::Write::write_char(w.m(s), c).is_ok()),
+                    _ => core::fmt::Write::write_fmt(w.m(s), format_args!("{}{}{}", 'x', '\u{e9}', '\u{20ac}')).is_ok(),
+                });
                 match r {
                     Ok(ok) => {
                         self.last.ret = ok as i64;
@@ -1222,6 +1259,7 @@ impl World {
                     i: usize,
                     hint: usize,
                     boom: bool,
+                    exact: bool,
                 }
                 impl<'a> Iterator for It<'a> {
                     type Item = u8;
@@ -1236,13 +1274,15 @@ impl World {
                         }
                     }
                     fn size_hint(&self) -> (usize, Option<usize>) {
-                        (self.hint, None)
+                        // t = 1: the hint looks exact (lower == upper) and is still a lie
+                        (self.hint, if self.exact { Some(self.hint) } else { None })
                     }
                 }
+                let exact = op.t == 1;
                 let before = self.model(s).clone();
                 // a lower bound that cannot be represented: reserve(lower) must panic before anything is appended
                 let hint_impossible = !boom && before.len().checked_add(hint).map_or(true, |t| t > ISIZE_MAX);
-                let r = self.call(|w| w.m(s).extend(It { d: &d, i: 0, hint, boom }));
+                let r = self.call(|w| w.m(s).extend(It { d: &d, i: 0, hint, boom, exact }));
                 let _ = n;
                 match r {
                     Ok(()) => {
@@ -1377,6 +1417,12 @@ impl World {
                 }
             }
         }
+        // a panic that comes out of the user's owner destructor is the user's, whichever call released the last view
+        let drops_after: u32 = owners().iter().map(|o| o.drops).sum();
+        if panicked && drops_after != drops_before && op.k != K::Root {
+            expect_panic = true;
+            owner_drop_panic = true;
+        }
         self.last.panicked = panicked;
         if panicked {
             self.panics_seen += 1;
@@ -1402,7 +1448,7 @@ impl World {
                     self.vio("C13", "MTryReclaim-panic", format!("try_reclaim({}) panicked; it must answer true or false", op.a));
                 }
             }
-            if panicked && op.k != K::MExtendPanic && op.k != K::MPutUnder {
+            if panicked && op.k != K::MExtendPanic && op.k != K::MPutUnder && !owner_drop_panic {
                 // C13: every handle, including the target, is intact (only checkable for calls that
                 // borrow the handle; a consuming call that panics has lost it, which is reported above)
                 let post = self.snaps();
@@ -1426,7 +1472,7 @@ impl World {
     fn byte_buffer_allocated_excluding_owner(kind: usize, n: usize) -> bool {
         // from_owner: the harness builds the owner's Vec inside the window (1 align-1 block of n bytes via d.clone())
         let allocs: Vec<usize> = oracle::events().iter().filter(|e| e.is_alloc && e.align == 1).map(|e| e.size).collect();
-        if kind == R_BOWNER || kind == R_BOWNER_VEC {
+        if kind == R_BOWNER || kind == R_BOWNER_VEC || kind == R_BOWNER_DROP_PANIC {
             allocs.len() > if n > 0 { 1 } else { 0 }
         } else if kind == R_BOWNER_FLAKY {
             allocs.len() > if n > 0 { 2 } else { 1 }
